@@ -1,9 +1,316 @@
-//! Replica-side histories for the crash/torn-write enumeration (C02, C07). (stub, filled in below)
-use crate::crash::CrashCfg;
+//! Replica-side histories for crash / torn-write / fault enumeration (C02, C07, C10):
+//! a scripted honest writer grows in rounds and a journaled replica applies its proofs.
+
+use crate::backend::{apply, apply_torn, empty_files, Disk, Files, JOp, OPLOG};
+use crate::crash::{is_header_write, torn_cuts, CrashCfg};
+use crate::hc::{self, brief_get, Obs};
+use crate::model::ReplicaModel;
+use crate::ops::*;
+use crate::repl::*;
 use crate::runner::*;
+use proptest::prelude::*;
+use serde::{Deserialize, Serialize};
 use serde_json::Value;
 
-pub fn run_replica_stage(_ctx: &Ctx, _cfg: &CrashCfg, _n: u64) {}
-pub fn replay(_case: &Value, _torn: bool) -> Check {
+#[derive(Clone, Debug, PartialEq, Eq, Hash, Serialize, Deserialize)]
+pub struct ReplCase {
+    pub session: Vec<SOp>,
+}
+
+fn rsop_strategy() -> impl Strategy<Value = SOp> {
+    prop_oneof![
+        3 => wblk_strategy().prop_map(|b| SOp::W(Op::Append(b))),
+        3 => prop::collection::vec(wblk_strategy(), 1..7).prop_map(|b| SOp::W(Op::Batch(b))),
+        1 => clear_strategy().prop_map(SOp::W),
+        14 => req_strategy().prop_map(SOp::R),
+        4 => Just(SOp::RReopen),
+        1 => any::<u16>().prop_map(SOp::RClear),
+    ]
+}
+
+pub fn replcase_strategy() -> impl Strategy<Value = ReplCase> {
+    prop::collection::vec(rsop_strategy(), 2..22).prop_map(|session| ReplCase { session })
+}
+
+fn robs_vs_model(obs: &Obs, rm: &ReplicaModel, wblocks: &[Vec<u8>]) -> Option<String> {
+    if obs.length != rm.length {
+        return Some(format!("length {} vs model {}", obs.length, rm.length));
+    }
+    if obs.byte_length != rm.byte_length {
+        return Some(format!("byte_length {} vs model {}", obs.byte_length, rm.byte_length));
+    }
+    if obs.writeable {
+        return Some("replica writeable".into());
+    }
+    if obs.fork != 0 {
+        return Some(format!("fork {}", obs.fork));
+    }
+    for (i, has, get) in &obs.blocks {
+        let held = rm.held.contains(i);
+        if *has != held {
+            return Some(format!("has({i}) {has} vs model {held}"));
+        }
+        let exp: Result<Option<Vec<u8>>, String> = Ok(if held { Some(wblocks[*i as usize].clone()) } else { None });
+        if *get != exp {
+            return Some(format!("get({i}) {} vs model {}", brief_get(get), brief_get(&exp)));
+        }
+    }
+    None
+}
+
+struct RRec {
+    op: SOp,
+    b: usize,
+    e: usize,
+    before: ReplicaModel,
+    after: ReplicaModel,
+    unflushed_before: u32,
+}
+
+/// Recover the replica from `files`, compare with the candidate models, then let honest
+/// replication with the (final) writer complete.
+#[allow(clippy::too_many_arguments)]
+fn recover_replica(sim: &mut RSim, files: &Files, cands: &[&ReplicaModel], ctxt: &str, with_suffix: bool, local: &mut Local) -> Check {
+    let disk = Disk::new();
+    disk.set_files(files.clone());
+    local.class("recoveries");
+    local.evals += 1;
+    let mut core = match hc::open(&disk) {
+        Ok(Ok(c)) => c,
+        Ok(Err(e)) => {
+            return Err(Failure::new(format!("recovery-open-error:{}", err_kind(&e)), format!("{ctxt}: reopening the replica after the crash failed: {e}")))
+        }
+        Err(p) => return Err(panic_failure(&format!("{ctxt}: reopening the replica after the crash"), &p)),
+    };
+    let upto = cands.iter().map(|m| m.length).max().unwrap_or(0) + 3;
+    let obs = hc::observe(&mut core, upto, false).map_err(|p| panic_failure(&format!("{ctxt}: observing the recovered replica"), &p))?;
+    let mut matched = None;
+    let mut diffs = vec![];
+    for (i, m) in cands.iter().enumerate() {
+        match robs_vs_model(&obs, m, &sim.wblocks) {
+            None => {
+                matched = Some(i);
+                break;
+            }
+            Some(d) => diffs.push(d),
+        }
+    }
+    let Some(mi) = matched else {
+        let kind = if cands.len() == 1 { "recovery-lost-acknowledged-state" } else { "recovery-neither-before-nor-after" };
+        return Err(Failure::new(kind, format!("{ctxt}: recovered replica matches none of the {} allowed model state(s): {}", cands.len(), diffs.join(" | "))));
+    };
+    if !with_suffix {
+        return Ok(());
+    }
+    // usability: honest replication with the writer completes, replica reopens, reads match
+    let rm = cands[mi].clone();
+    let old_disk = std::mem::replace(&mut sim.rdisk, disk);
+    let old_r = std::mem::replace(&mut sim.r, Some(core));
+    let old_rm = std::mem::replace(&mut sim.rm, rm);
+    let mut scratch = Local::default();
+    let res = sim.sync_all(&mut scratch).and_then(|_| sim.replica_reopen());
+    sim.rdisk = old_disk;
+    sim.r = old_r;
+    sim.rm = old_rm;
+    res.map_err(|f| Failure::new(format!("after-recovery:{}", f.kind), format!("{ctxt}: honest replication after recovery: {}", f.detail)))
+}
+
+pub fn test_session(case: &ReplCase, cfg: &CrashCfg, local: &mut Local) -> Check {
+    let rdisk = Disk::journaled();
+    let mut sim = RSim::new(rdisk.clone())?;
+    let k0 = rdisk.journal_len();
+    let mut recs: Vec<RRec> = vec![];
+    let mut scratch = Local::default();
+    let mut unflushed = 0u32;
+    for op in &case.session {
+        let b = rdisk.journal_len();
+        let before = sim.rm.clone();
+        sim.apply(op, &mut scratch)?;
+        let e = rdisk.journal_len();
+        recs.push(RRec { op: op.clone(), b, e, before, after: sim.rm.clone(), unflushed_before: unflushed });
+        if e > b {
+            let j = rdisk.0.journal.lock().unwrap();
+            if j[b..e].iter().any(is_header_write) {
+                unflushed = 0;
+            } else {
+                unflushed += 1;
+            }
+        }
+    }
+    let journal = rdisk.journal();
+    let n = journal.len();
+    local.evals = local.evals.saturating_sub(1);
+    local.class("replica_histories");
+    let mut files = empty_files();
+    for op in &journal[..k0] {
+        apply(&mut files, op);
+    }
+    let mut rng = small_rng(cfg.seed, n as u64);
+    let initial = ReplicaModel::new();
+    for k in k0..=n {
+        if k > k0 {
+            apply(&mut files, &journal[k - 1]);
+        }
+        let inside = recs.iter().find(|c| c.b < k && k < c.e);
+        let cands: Vec<&ReplicaModel> = match inside {
+            Some(c) => vec![&c.before, &c.after],
+            None => {
+                let last = recs.iter().filter(|c| c.e <= k && c.e > c.b).next_back();
+                vec![last.map(|c| &c.after).unwrap_or(&initial)]
+            }
+        };
+        let desc = |what: &str| {
+            let nc = recs.iter().find(|c| c.b <= k && k < c.e).map(|c| format!("{:?}", c.op)).unwrap_or_else(|| "end".into());
+            let nextop = if k < n { journal[k].brief() } else { "-".into() };
+            format!("replica {what} at journal prefix {k}/{n} (during {nc}; next storage op: {nextop})")
+        };
+        if !cfg.torn_only {
+            local.class("crash_points");
+            if let Some(c) = inside {
+                if c.e - c.b >= 2 && c.unflushed_before > 0 {
+                    local.nontrivial(&(hash_of(&case.session), k));
+                    local.class("points_inside_multiop_call_with_unflushed_predecessor");
+                }
+                if is_header_write(&journal[k - 1]) {
+                    local.class("points_between_header_write_and_next_op");
+                }
+            }
+            let with_suffix = inside.is_some() || k % 3 == 0;
+            recover_replica(&mut sim, &files, &cands, &desc("crash"), with_suffix, local)?;
+        }
+        if cfg.torn && k < n {
+            if let JOp::Write { data, s, off } = &journal[k] {
+                let c = recs.iter().find(|c| c.b <= k && k < c.e);
+                let cands_t: Vec<&ReplicaModel> = match c {
+                    Some(c) => vec![&c.before, &c.after],
+                    None => cands.clone(),
+                };
+                for cut in torn_cuts(data.len(), &mut rng) {
+                    let mut f2 = files.clone();
+                    apply_torn(&mut f2, &journal[k], cut);
+                    local.class("torn_states");
+                    if *s == OPLOG {
+                        local.class(if is_header_write(&journal[k]) { "torn_header_slot_writes" } else { "torn_entry_writes" });
+                        local.nontrivial(&(hash_of(&case.session), k, cut));
+                    } else if (*off as usize) < files[*s].len() {
+                        local.class("torn_overwrites_of_older_content");
+                        local.nontrivial(&(hash_of(&case.session), k, cut));
+                    }
+                    recover_replica(
+                        &mut sim,
+                        &f2,
+                        &cands_t,
+                        &desc(&format!("torn write ({cut} of {} bytes of {})", data.len(), journal[k].brief())),
+                        cut % 4 == 1,
+                        local,
+                    )?;
+                }
+            }
+        }
+    }
     Ok(())
+}
+
+pub fn run_replica_stage(ctx: &Ctx, cfg: &CrashCfg, n: u64) {
+    let cfg = *cfg;
+    random_stage(ctx, "replica-random", n, replcase_strategy, move |c: &ReplCase, local| test_session(c, &cfg, local));
+}
+
+pub fn replay(case: &Value, torn: bool) -> Check {
+    let c: ReplCase = serde_json::from_value(case.clone()).map_err(|e| Failure::new("bad-replay", e.to_string()))?;
+    let cfg = CrashCfg { torn, torn_only: torn, recurse_every: None, suffix: true, check_contig: false, seed: 1 };
+    let mut l = Local::default();
+    test_session(&c, &cfg, &mut l)
+}
+
+// ------------------------------------------------------------------ fault injection (C10)
+
+/// Run the session with replica storage operation `fault_at` failing once.
+/// Returns (ops issued on the replica disk, ops after creation).
+fn fault_run(case: &ReplCase, fault_at: Option<u64>, local: &mut Local) -> Result<(u64, u64), Failure> {
+    let rdisk = Disk::new();
+    let mut sim = RSim::new(rdisk.clone())?;
+    sim.quiet = true;
+    sim.w.policy = ObsPolicy::Windowed;
+    let k0 = rdisk.ops();
+    if let Some(k) = fault_at {
+        rdisk.set_fault(k as i64);
+    }
+    let mut scratch = Local::default();
+    for (ci, op) in case.session.iter().enumerate() {
+        let before = sim.rm.clone();
+        let r = sim.apply(op, &mut scratch);
+        if rdisk.fault_hit() {
+            let kind = rdisk.0.fault_kind.lock().unwrap().clone().unwrap_or_default();
+            let what = format!("injected I/O error on replica storage operation {} ({kind}) during step {ci} {op:?}", fault_at.unwrap());
+            // the step must have surfaced the error (RSim maps a swallowed fault to a Failure)
+            r.map_err(|f| Failure::new(f.kind, format!("{what}: {}", f.detail)))?;
+            local.class(&format!("replica_fault_on:{kind}"));
+            local.nontrivial(&(hash_of(&case.session), fault_at));
+            // the model after the step, had it succeeded: re-derive by what the step would have done
+            let mut after = before.clone();
+            if let SOp::R(_) = op {
+                // possible effects: upgrade to the writer's current length and/or one block held
+                after.length = sim.w.model.len();
+                after.byte_length = sim.w.model.byte_length;
+            }
+            rdisk.set_fault(-1);
+            sim.r = None;
+            let files = rdisk.snapshot();
+            // candidates: before; after-upgrade; each with the requested block held
+            let mut cands: Vec<ReplicaModel> = vec![before.clone()];
+            if let SOp::R(req) = op {
+                let mut variants = vec![before.clone(), after.clone()];
+                let blocks: Vec<u64> = match &req.target {
+                    Target::Block(_) | Target::BlockAt(_) => (0..sim.w.model.len()).collect(),
+                    _ => vec![],
+                };
+                // the exact block index was resolved inside the step; accept any single additional held block that the writer holds
+                let base = variants.clone();
+                for v in base {
+                    for b in &blocks {
+                        if !v.held.contains(b) && *b < v.length {
+                            let mut x = v.clone();
+                            x.held.insert(*b);
+                            variants.push(x);
+                        }
+                    }
+                }
+                cands = variants;
+            }
+            if let SOp::RClear(_) = op {
+                for h in before.held.iter() {
+                    let mut x = before.clone();
+                    x.held.remove(h);
+                    cands.push(x);
+                }
+            }
+            let refs: Vec<&ReplicaModel> = cands.iter().collect();
+            recover_replica(&mut sim, &files, &refs, &what, true, local)?;
+            return Ok((rdisk.ops(), k0));
+        }
+        r?;
+    }
+    Ok((rdisk.ops(), k0))
+}
+
+pub fn test_fault_session(case: &ReplCase, local: &mut Local) -> Check {
+    let (total, k0) = fault_run(case, None, local)?;
+    local.class("replica_histories");
+    local.evals = local.evals.saturating_sub(1);
+    for k in k0..total {
+        local.class("fault_runs");
+        fault_run(case, Some(k), local)?;
+    }
+    Ok(())
+}
+
+pub fn run_replica_fault_stage(ctx: &Ctx, n: u64) {
+    random_stage(ctx, "replica-random", n, replcase_strategy, |c: &ReplCase, local| test_fault_session(c, local));
+}
+
+pub fn replay_fault(case: &Value) -> Check {
+    let c: ReplCase = serde_json::from_value(case.clone()).map_err(|e| Failure::new("bad-replay", e.to_string()))?;
+    let mut l = Local::default();
+    test_fault_session(&c, &mut l)
 }
